@@ -46,4 +46,13 @@ m = {
     'notes': 'Known genuine defects that are recorded rather than repaired are listed in /verif/known_findings.json; repaired ones as fixed entries there.',
 }
 json.dump(m, open(os.path.join(ROOT, 'MANIFEST.json'), 'w'), indent=1)
+# hand-runnable TLC configurations of every model-checking base (tlc -config spec/MC_<name>.cfg spec/MCColl.tla)
+import glob
+for f in glob.glob(os.path.join(ROOT, 'spec', 'MC_coll_*.cfg')): os.remove(f)
+for name, c in plan.MC_BASE.items():
+    with open(os.path.join(ROOT, 'spec', 'MC_coll_%s.cfg' % name), 'w') as f:
+        f.write('SPECIFICATION Spec\nCONSTANTS\n')
+        for k, v in c.items():
+            f.write(' %s = %s\n' % (k, json.dumps(v) if isinstance(v, str) else ('TRUE' if v is True else 'FALSE' if v is False else v)))
+        f.write('INVARIANTS ' + ' '.join(plan.COLL_INVS) + '\nCHECK_DEADLOCK FALSE\n')
 print('claimed', [c['property_id'] for c in checks])
